@@ -1,9 +1,15 @@
 import Props.C10b
 import Props.C10c
 import Props.C10d
+import Props.C10e
+import Props.C10f
+import Props.C10g
 #print axioms C10.linear_roundtrip
 #print axioms C10.alias_roundtrip
 #print axioms C10.roundtrip_pow
 #print axioms C10.power_law_roundtrip
 #print axioms C10.log_roundtrip
 #print axioms C10.hlg_roundtrip
+#print axioms C10.srgb_roundtrip
+#print axioms C10.xvycc_roundtrip
+#print axioms C10.roundtrip13
